@@ -215,6 +215,12 @@ func init() {
 			n, _ := p.side["sleepCount"].(int)
 			return p.mkIntT(int64(n))
 		},
+		"verifSleepTotal": func(p *Path, th *Thread, fr *Frame, args []Value) Value {
+			if tot, ok := p.side["sleepTotal"].(*Term); ok {
+				return tot
+			}
+			return p.mkInt(types.Typ[types.Int64], 0)
+		},
 		"verifFail": func(p *Path, th *Thread, fr *Frame, args []Value) Value {
 			p.assertObl(p.tt.Bool(false), args[0].(string))
 			return nil
